@@ -41,6 +41,7 @@ func init() {
 			"Oracle: every call returns (no panic; watchdog for hangs). distinct = distinct (entry point, error-class or accepted) outcomes x definition classes",
 		Assumptions: []string{"readers that return (0,nil) forever are outside the alphabet", "arbitrary deep garbage beyond the structured families is not enumerated"},
 		Run:         runC01,
+		Sub:         func(args []string) { tzSub(args) },
 		QuickBudget: 240, ThoroughBudget: 3300,
 		Replay: func(raw json.RawMessage) (string, error) {
 			var r c01Replay
@@ -115,6 +116,7 @@ func errClass(err error) string {
 }
 
 func runC01(w *vx.W) {
+	procsFamily(w, "C01", "integrity", "chain-faults")
 	c := &c01ctx{w: w}
 	w.CurCase = func() (string, interface{}) {
 		return fmt.Sprintf("%s on %d bytes", c.entry, len(c.cur)), c01Replay{c.entry, vx.Hex(c.cur), c.chunk}
@@ -124,6 +126,7 @@ func runC01(w *vx.W) {
 	c01RecordHeaders(c)
 	c01Corpus(c)
 	c01DevFields(c)
+	c01FieldDescriptions(c)
 	c01Chains(c)
 	c01Substitutions(c)
 	c01LyingSizes(c)
@@ -459,6 +462,51 @@ func c01DevFields(c *c01ctx) {
 							c.call("Decode", b[:len(b)-len(pl)/2-3], 0)
 						}
 					}
+				}
+			}
+		}
+	}
+}
+
+// c01FieldDescriptions: developer fields preceded by the messages that describe them — a field_description whose
+// fit_base_type_id takes every byte value (most of them name no base type), with or without a developer_data_id,
+// once or twice, before or after the definition that uses the field; the developer field's size takes values that
+// are and are not multiples of any element size.
+func c01FieldDescriptions(c *c01ctx) {
+	w := c.w
+	var idx int64
+	for bt := 0; bt < 256; bt++ {
+		for _, dsz := range []int{1, 2, 3, 4, 8, 255} {
+			for shape := 0; shape < 4; shape++ {
+				for o := 0; o < 2; o++ {
+					idx++
+					if !w.Mine(idx) {
+						continue
+					}
+					big := o == 1
+					recs := fitmodel.FileIdRecords(0, 4)
+					if shape != 1 {
+						did := fitmodel.Def{Local: 2, Big: big, Global: 207, Fields: []fitmodel.FieldDef{{Num: 3, Size: 1, Base: fitmodel.Uint8}, {Num: 1, Size: 16, Base: fitmodel.Byte}}}
+						recs = append(recs, did.Bytes(), fitmodel.Data(2, append([]byte{0}, c01Fill(16)...)))
+					}
+					fdd := fitmodel.Def{Local: 3, Big: big, Global: 206, Fields: []fitmodel.FieldDef{{Num: 0, Size: 1, Base: fitmodel.Uint8}, {Num: 1, Size: 1, Base: fitmodel.Uint8}, {Num: 2, Size: 1, Base: fitmodel.Uint8}, {Num: 3, Size: 4, Base: fitmodel.String}, {Num: 8, Size: 2, Base: fitmodel.String}}}
+					desc := func(b int) []byte { return fitmodel.Data(3, []byte{0, 7, byte(b), 'd', 'e', 'v', 0, 'm', 0}) }
+					d := fitmodel.Def{Local: 1, Big: big, Global: 20, Fields: []fitmodel.FieldDef{{Num: 3, Size: 1, Base: fitmodel.Uint8}}, DevFlag: true, Dev: []fitmodel.DevDef{{Num: 7, Size: byte(dsz), Idx: 0}}}
+					pl := append([]byte{71}, c01Fill(dsz)...)
+					switch shape {
+					case 0, 1:
+						recs = append(recs, fdd.Bytes(), desc(bt), d.Bytes(), fitmodel.Data(1, pl))
+					case 2: // described twice: a well-formed description, then this one
+						recs = append(recs, fdd.Bytes(), desc(0x84), desc(bt), d.Bytes(), fitmodel.Data(1, pl), desc(0x02), fitmodel.Data(1, pl))
+					case 3: // the description follows the definition
+						recs = append(recs, d.Bytes(), fdd.Bytes(), desc(bt), fitmodel.Data(1, pl), d.Bytes(), fitmodel.Data(1, pl))
+					}
+					b := fitmodel.File(fitmodel.DefaultHeader, recs...)
+					res := c.call("Decode", b, 0)
+					w.Fam("l:field-descriptions", 1)
+					w.DistinctS(fmt.Sprintf("fdesc/%d/%d/%d/%s", bt, dsz, shape, errClass(res.Err)))
+					c.call("DecodeChained", b, 0)
+					c.call("Decode+options", b, 0)
 				}
 			}
 		}
